@@ -3,11 +3,15 @@
 //!     population stacks, call-logging objective, Sequential/Parallel evaluators, rayon pools,
 //!     identifiers Global and a custom one, missing evaluator;
 //! (2) a loop guarded by `LessThanN::evaluations(n)` (budget overshoot);
-//! (3) run level: every leaf step of runs of all 21 templates: counter delta vs. objective calls.
+//! (3) run level: every leaf step of runs of all 21 templates: counter delta vs. objective calls;
+//! (4) the generic loop functions `heuristics::xx::xx::<P, I>` with `I = identifier::A` (`hcommon::templates_generic`):
+//!     runs on a state holding ONLY `Evaluator<P, A>` (must complete, count exact) and ONLY `Evaluator<P, Global>`
+//!     (must fail before anything executes); `--generic-trees` prints their serialised trees for the regenerated layer.
 use std::collections::HashMap;
 use std::sync::{Arc, Mutex};
 
 use hcommon::templates::*;
+use hcommon::templates_generic::{generic_tree, run_generic, Registered, GENERIC_TEMPLATES};
 use hcommon::*;
 use mahf::conditions::LessThanN;
 use mahf::problems::{ObjectiveFunction, Parallel, Sequential};
@@ -234,6 +238,7 @@ struct Counting {
     scopes: Vec<usize>,                            // index of the `(s …)` event of every open scope
     events: Vec<String>,
     result: String,
+    nsteps: u64,                                   // observer callbacks (Phase::Before) = components/passes started
 }
 fn short(name: &str) -> String {
     let base = name.split('<').next().unwrap_or(name);
@@ -248,6 +253,7 @@ impl Visitor for Counting {
         let is_scope = name.contains("control_flow::Scope");
         match phase {
             Phase::Before => {
+                self.nsteps += 1;
                 if let Some(f) = self.frames.last_mut() { f.3 += 1; }
                 let top = state.populations().get_current().map(|p| p.len()).unwrap_or(0);
                 self.frames.push((problem.probe().count(), vis_evals(state), top, 0));
@@ -297,10 +303,36 @@ fn run_run(a: &[Sx]) -> String {
     let name = a[0].atom().unwrap();
     let (v, i, iters, seed) = (a[1].nat().unwrap() as u32, a[2].nat().unwrap() as u32, a[3].nat().unwrap() as u32, a[4].nat().unwrap());
     let ek = if a[5].atom().unwrap() == "par" { EvalKind::Parallel } else { EvalKind::Sequential };
-    let vis = Counting { frames: vec![], scopes: vec![], events: vec![], result: String::new() };
+    let vis = Counting { frames: vec![], scopes: vec![], events: vec![], result: String::new(), nsteps: 0 };
     match run_template(name, v, i, iters, seed, ek, vis) {
         Ok((vis, _)) => vis.result,
         Err(_) => "((out ctor-err) (trace) (evals none) (ncalls 0))".into(),
+    }
+}
+
+/// `(generic NAME V I ITERS SEED seq|par only-a|only-g)`: the generic loop function `NAME` instantiated with
+/// evaluator identifier `A`, run on a state that holds only `Evaluator<P, A>` (`only-a`) or only
+/// `Evaluator<P, Global>` (`only-g`). Output: the run-level record of `run_run`, how many components/passes
+/// were started at all, and the configuration's serialised tree.
+fn run_generic_case(a: &[Sx]) -> String {
+    let name = a[0].atom().unwrap();
+    let (v, i, iters, seed) = (a[1].nat().unwrap() as u32, a[2].nat().unwrap() as u32, a[3].nat().unwrap() as u32, a[4].nat().unwrap());
+    let ek = if a[5].atom().unwrap() == "par" { EvalKind::Parallel } else { EvalKind::Sequential };
+    let reg = if a[6].atom().unwrap() == "only-a" { Registered::OnlyA } else { Registered::OnlyGlobal };
+    let tree = generic_tree(name, v, iters);
+    let vis = Counting { frames: vec![], scopes: vec![], events: vec![], result: String::new(), nsteps: 0 };
+    match run_generic(name, v, i, iters, seed, ek, reg, vis) {
+        Ok((vis, outcome)) => {
+            let out = match &outcome {
+                Outcome::Err(msg) if msg.contains("missing") || msg.contains("require") => "err-required",
+                o => o.tag(),
+            };
+            // `vis.result` = `((out …) (trace …) (evals …) (ncalls …))`; the outcome is refined here
+            let body = vis.result.trim_start_matches('(').splitn(2, ") ").nth(1).unwrap_or("").to_string();
+            let body = body.strip_suffix(')').unwrap_or(&body).to_string();
+            format!("((out {}) {} (nsteps {}) (tree {}))", out, body, vis.nsteps, tree)
+        }
+        Err(_) => format!("((out ctor-err) (trace) (evals none) (ncalls 0) (nsteps 0) (tree {}))", tree),
     }
 }
 
@@ -311,6 +343,7 @@ fn run_case(input: &Sx) -> (String, String) {
         "budget" => ("LessThanN-evaluations".into(), run_budget(a)),
         "run" => (a[0].atom().unwrap().to_string(), run_run(a)),
         "fa" => ("FireflyPositionsUpdate".into(), run_fa(a)),
+        "generic" => (format!("generic/{}", a[0].atom().unwrap()), run_generic_case(a)),
         other => panic!("unknown case {other}"),
     }
 }
@@ -337,6 +370,15 @@ fn main() {
         let (site, o) = run_case(&sx);
         out.case(&site, &r, &o);
         out.finish();
+        return;
+    }
+    if std::env::args().any(|x| x == "--generic-trees") {
+        // regenerated layer: one line per generic loop function x parameter point: `(tree NAME variant TREE)`
+        for name in GENERIC_TEMPLATES {
+            for v in 0..N_VARIANTS {
+                println!("(tree {} {} {})", name, v, generic_tree(name, v, 3));
+            }
+        }
         return;
     }
     let mut emit = |input: String| {
@@ -406,6 +448,21 @@ fn main() {
                     let seed = a.seed * 1000 + k;
                     let ek = if (v + i + k as u32) % 3 == 0 { "par" } else { "seq" };
                     emit(format!("(run {name} {v} {i} {iters} {seed} {ek})"));
+                }
+            }
+        }
+    }
+    // 4. generic loop functions instantiated with identifier A
+    for name in GENERIC_TEMPLATES {
+        for v in 0..N_VARIANTS {
+            for i in 0..N_INSTANCES {
+                for k in 0..seeds {
+                    let seed = a.seed * 1000 + k;
+                    let ek = if (v + i + k as u32) % 3 == 1 { "par" } else { "seq" };
+                    emit(format!("(generic {name} {v} {i} {iters} {seed} {ek} only-a)"));
+                    if k == 0 {
+                        emit(format!("(generic {name} {v} {i} {iters} {seed} {ek} only-g)"));
+                    }
                 }
             }
         }
